@@ -129,7 +129,7 @@ Proof.
   rewrite Qeq_rn in Hne.
   pose proof (line_scale_pos f t D HD) as Hsc.
   destruct (line_n_z f t D Hf Ht HD) as [Hn _]. rewrite Hn in Hk. clear Hn.
-  unfold line_at, line_radicand.
+  unfold line_at, line_radicand, line_at_z, line_radicand_z. change (line_scale_z (rn_den f t) D) with (line_scale f t D).
   set (fn := rn_from f t) in *. set (tn := rn_to f t) in *. set (sc := line_scale f t D) in *.
   set (K := k * sc).
   assert (HK0 : 0 <= K) by (unfold K; nia).
